@@ -120,6 +120,8 @@ type TConn struct {
 	gfail  int    // -1 = none
 	gkind  string // "error" | "timeout" | "eof"
 	gfired bool
+	// armedFor: how far in the future each non-zero SetDeadline was
+	armedFor []time.Duration
 	// replies computed from what has been written so far: each time a Read finds no chunks, the next
 	// function of the queue is consulted (dynReply is the single-reply shorthand)
 	dynReply  func(wire []byte) []byte
@@ -239,6 +241,9 @@ func (c *TConn) SetWriteDeadline(t time.Time) error {
 
 func (c *TConn) SetDeadline(t time.Time) error {
 	c.deadlines = append(c.deadlines, "d:"+timeTok(t))
+	if !t.IsZero() {
+		c.armedFor = append(c.armedFor, time.Until(t))
+	}
 	return c.gop("SD:" + deadlineClass(t))
 }
 func (c *TConn) SetReadDeadline(t time.Time) error {
